@@ -118,3 +118,13 @@ chk("C10",
     "constant, constant=False raises, float default, non-bool flag rejected) on concrete tensors.",
     "Trusted: reference differentiator; hand-written expected-flag rule per program. Programs outside the list are outside.",
     "symbolic execution with symbolic boolean flags (path per flag assignment) + SMT gradient equivalence against two oracles", "DESIGN §3 C10")
+chk("C12",
+    "Driver = every C02 case (all differentiable operations and option combinations, incl. the hand-written backward()s of GRU, sequence "
+    "ops, focal loss, einsum) plus 15 aliasing-prone programs. On every feasible path with symbolic data (each element a distinct term): "
+    "the arrays tensors were built from, caller-owned constant arrays, index and mask objects, every input tensor's data and the symbolic "
+    "seed handed to backward(g) are unchanged after the forward call and after backward (explicit out= targets exempt); backward never "
+    "changes any tensor's data; gradient arrays of tensors that do not share memory do not share memory; a write probe (fresh symbols "
+    "written in place into each .grad) leaves every non-sharing .grad, every .data and the seed untouched.",
+    "Mostly structural observation per path (term identity); the solver role is marginal here and the claim is bounded by the C02 "
+    "configuration set. Object arrays stand for float arrays; dtype-dependent copies (astype to another dtype) are outside.",
+    "symbolic execution with per-element distinct terms; term-identity snapshots and in-place write probes on every path", "DESIGN §3 C12")
